@@ -8,10 +8,8 @@ package main
 
 import (
 	"fmt"
-	"regexp"
 	"sync"
 	"runtime"
-	"strings"
 	"sync/atomic"
 	"time"
 
@@ -50,30 +48,6 @@ func init() {
 		<-ctl.resume[t]
 	}
 	c08RunConc = c08RunConcHook
-}
-
-var c08GoidRe = regexp.MustCompile(`^goroutine (\d+) `)
-
-func c08Goid() string {
-	buf := make([]byte, 64)
-	n := runtime.Stack(buf, false)
-	if m := c08GoidRe.FindSubmatch(buf[:n]); m != nil {
-		return string(m[1])
-	}
-	return ""
-}
-
-// c08BlockedOnMutex reports whether goroutine id is parked in sync.Mutex.Lock / sync.RWMutex.Lock
-func c08BlockedOnMutex(id string) bool {
-	buf := make([]byte, 1<<16)
-	n := runtime.Stack(buf, true)
-	for _, blk := range strings.Split(string(buf[:n]), "\n\n") {
-		if strings.HasPrefix(blk, "goroutine "+id+" [") {
-			hdr := blk[:strings.IndexByte(blk, '\n')]
-			return strings.Contains(hdr, "sync.Mutex.Lock") || strings.Contains(hdr, "semacquire") || strings.Contains(hdr, "sync.RWMutex")
-		}
-	}
-	return false
 }
 
 func c08RunConcHook(w *scWorld, bs []*scBH, threads []c08Thread, sched string) (results []string, trace []string, clones []c08Clone, errs string) {
@@ -257,7 +231,12 @@ func c08RunConcHook(w *scWorld, bs []*scBH, threads []c08Thread, sched string) (
 			ctl.cstep++
 		}
 		trace = append(trace, fmt.Sprintf("%d:%s", t, parked[t]))
-		ctl.resume[t] <- struct{}{}
+		select {
+		case ctl.resume[t] <- struct{}{}:
+		case <-time.After(10 * time.Second):
+			errs = fmt.Sprintf("thread %d was taken to be parked at %s but does not accept its release (parked: %v)", t, parked[t], parked)
+			return false
+		}
 		if !waitFor(t) {
 			return false
 		}
